@@ -851,3 +851,128 @@ Proof.
 Qed.
 
 End Eval.
+
+(* ================================================================== *)
+(* Part 6: one cycle                                                   *)
+
+Lemma seg_S {A} (l : list A) a s :
+  seg l a (S s) = match nth_opt a l with Some x => x :: seg l (S a) s | None => [] end.
+Proof.
+  unfold seg. revert a. induction l as [|x r IH]; intros a; simpl.
+  - destruct a; reflexivity.
+  - destruct a; simpl; [reflexivity|]. apply IH.
+Qed.
+
+Lemma seg_ext {A} (l l' : list A) : forall s a,
+  (forall i, a <= i -> i < a + s -> nth_opt i l = nth_opt i l') -> seg l a s = seg l' a s.
+Proof.
+  induction s as [|s IH]; intros a H; [reflexivity|].
+  rewrite !seg_S. rewrite <- (H a) by lia. destruct (nth_opt a l); [|reflexivity].
+  f_equal. apply IH. intros i H1 H2. apply H; lia.
+Qed.
+
+Lemma seg_min {A} (l : list A) a s : seg l a (Nat.min s (length l - a)) = seg l a s.
+Proof.
+  unfold seg. rewrite <- (firstn_skipn 0 (skipn a l)) at 1. simpl.
+  destruct (Nat.le_ge_cases s (length l - a)).
+  - rewrite Nat.min_l by assumption. reflexivity.
+  - rewrite Nat.min_r by assumption. rewrite !firstn_all2; try reflexivity; rewrite skipn_length; lia.
+Qed.
+
+Section Cycle.
+Variable f : Z -> Z -> Z.
+Variable cf : cfg.
+Hypothesis f_assoc : forall a b c, f (f a b) c = f a (f b c).
+Hypothesis Hlift : c_lifted cf = true.
+
+(* A combine point that is right for (L, vals) stays right for (L', vals') when nothing
+   under it changed. *)
+Lemma good_transfer k L vals L' vals' combs combs' p :
+  length vals = length L -> length vals' = length L' ->
+  p < internals (2 ^ k) ->
+  nth_opt p combs' = nth_opt p combs ->
+  (forall j u, 1 <= j -> j <= k -> u < 2 ^ (k - j) -> p = pos k j u ->
+     forall i, u * 2 ^ j <= i -> i < (u + 1) * 2 ^ j ->
+       nth_opt i vals' = nth_opt i vals /\ (i < length L' <-> i < length L)) ->
+  good f cf L vals k combs p -> good f cf L' vals' k combs' p.
+Proof.
+  intros Hl Hl' Hp Hc Hsame G j u H1 H2 H3 E.
+  destruct (G j u H1 H2 H3 E) as [G1 G2]. specialize (Hsame j u H1 H2 H3 E).
+  pose proof (pow2_half j H1) as Hh. pose proof (pow2_pos (j - 1)) as Hp1.
+  split.
+  - intros Hn.
+    assert (Hn' : u * 2 ^ j + 2 ^ (j - 1) < length L).
+    { apply (Hsame (u * 2 ^ j + 2 ^ (j - 1))); lia. }
+    destruct (G1 Hn') as [c [C1 C2]]. exists c. subst p. split; [congruence|].
+    rewrite C2. f_equal. rewrite <- Hl, <- Hl'. rewrite !seg_min.
+    apply seg_ext. intros i A1 A2. symmetry. apply (Hsame i); lia.
+  - intros Z1 Z2 Z3. subst j.
+    assert (Hu : u = 0) by (rewrite Nat.sub_diag in H3; simpl in H3; lia). subst u.
+    assert (Hone : length L = 1).
+    { pose proof (pow2_ge2 k H1).
+      assert (0 < length L) by (apply (Hsame 0); lia).
+      assert (~ 1 < length L) by (intros Hc1; apply (Hsame 1) in Hc1; lia). lia. }
+    destruct (G2 Z1 Hone eq_refl) as [c [v [C1 [C2 C3]]]].
+    assert (p = 0) by (subst p; unfold pos; rewrite Nat.sub_diag; reflexivity). subst p.
+    exists c, v. rewrite H in Hc. split; [congruence|]. split; [|exact C3].
+    rewrite <- C2. apply (Hsame 0); pose proof (pow2_ge2 k H1); lia.
+Qed.
+
+(* what the published root is worth, when every present combine point is right *)
+Definition spec_result (vals : list Z) : option Z :=
+  match vals with
+  | [] => if c_has_zero cf then Some (c_zero cf) else None
+  | [v] => if c_has_zero cf then Some (f v (c_zero cf)) else Some v
+  | _ => fold1 f vals
+  end.
+
+Lemma root_value st L vals k combs :
+  leaf_vals st L vals -> length L <= 2 ^ k -> (c_has_zero cf = true -> 1 <= k) ->
+  wf_presence cf L k combs ->
+  (forall p, p < internals (2 ^ k) -> present combs p = true -> good f cf L vals k combs p) ->
+  aval cf st L combs (root_aggregate (c_has_zero cf) (2 ^ k) (length L) (length combs)) = spec_result vals.
+Proof.
+  intros Hvals Hcap Hzk [Hlen Hpres] Hgood.
+  assert (Hlv : length vals = length L) by (destruct Hvals; assumption).
+  unfold root_aggregate.
+  destruct (length L =? 0) eqn:E0.
+  { apply Nat.eqb_eq in E0. destruct vals; [|simpl in Hlv; lia].
+    unfold aval, agg_src, spec_result. destruct (c_has_zero cf) eqn:Ez; cbn [src_value]; rewrite ?Ez; reflexivity. }
+  apply Nat.eqb_neq in E0.
+  assert (Hroot : forall j' u', 1 <= j' -> j' <= k -> u' < 2 ^ (k - j') -> u' * 2 ^ j' = 0 * 2 ^ k ->
+            u' * 2 ^ j' + 2 ^ (j' - 1) < length L -> sem_at f L vals k combs j' u').
+  { intros j' u' B1 B2 B3 B4 B5.
+    assert (Hq : pos k j' u' < internals (2 ^ k)) by (apply pos_internal; lia).
+    assert (Hpq : present combs (pos k j' u') = true).
+    { rewrite (Hpres _ Hq). apply (proj2 (needed_iff cf L k Hcap j' u' B1 B2 B3)). right. exact B5. }
+    destruct (Hgood _ Hq Hpq j' u' B1 B2 B3 eq_refl) as [G _]. apply G. exact B5. }
+  destruct (c_has_zero cf && (length L =? 1) && negb (length combs =? 0)) eqn:Ez.
+  - apply andb_true_iff in Ez. destruct Ez as [Ez Ez3]. apply andb_true_iff in Ez. destruct Ez as [Ez1 Ez2].
+    apply Nat.eqb_eq in Ez2. specialize (Hzk Ez1).
+    assert (H0 : 0 < internals (2 ^ k)) by (rewrite internals_pow2; pose proof (pow2_ge2 k Hzk); lia).
+    assert (Hpk : pos k k 0 = 0) by (unfold pos; rewrite Nat.sub_diag; reflexivity).
+    assert (Hk3 : 0 < 2 ^ (k - k)) by (rewrite Nat.sub_diag; simpl; lia).
+    assert (Hp0 : present combs 0 = true).
+    { rewrite (Hpres 0 H0).
+      pose proof (proj2 (needed_iff cf L k Hcap k 0 Hzk (Nat.le_refl k) Hk3)) as Hn.
+      rewrite Hpk in Hn. apply Hn. left. auto. }
+    destruct (Hgood 0 H0 Hp0 k 0 Hzk (Nat.le_refl k) ltac:(rewrite Nat.sub_diag; simpl; lia)
+                ltac:(unfold pos; rewrite Nat.sub_diag; reflexivity)) as [_ G2].
+    destruct (G2 Ez1 Ez2 eq_refl) as [c [v [C1 [C2 C3]]]].
+    unfold aval, agg_src. rewrite C1. cbn [src_value]. rewrite C1, C3.
+    unfold spec_result. destruct vals as [|v0 [|v1 r]]; simpl in Hlv; try lia.
+    simpl in C2. rewrite Ez1. congruence.
+  - assert (Hpk : pos k k 0 = 0) by (unfold pos; rewrite Nat.sub_diag; reflexivity).
+    assert (Hk3 : 0 < 2 ^ (k - k)) by (rewrite Nat.sub_diag; simpl; lia).
+    pose proof (aval_sem f cf st L vals k Hvals Hcap combs k 0 (Nat.le_refl k) Hk3 ltac:(lia) Hroot) as Hav.
+    rewrite Hpk in Hav. rewrite Hav. clear Hav.
+    { simpl (0 * _). rewrite Nat.sub_0_r. rewrite Nat.min_r by lia.
+      unfold seg. simpl. rewrite <- Hlv. rewrite firstn_all.
+      unfold spec_result. destruct vals as [|v0 [|v1 r]]; simpl in Hlv; try lia; try reflexivity.
+      destruct (c_has_zero cf) eqn:Ez1; [|reflexivity].
+      exfalso. simpl in Ez. rewrite <- Hlv in Ez. simpl in Ez.
+      specialize (Hzk eq_refl). rewrite Hlen, internals_pow2 in Ez.
+      pose proof (pow2_ge2 k Hzk). destruct (2 ^ k - 1 =? 0) eqn:E9; [apply Nat.eqb_eq in E9; lia|discriminate]. }
+Qed.
+
+End Cycle.
